@@ -482,9 +482,9 @@ func gen(g *lp.Gen) {
 	for cs := 0; cs < g.N; cs++ {
 		c := cells[(cs+off)%len(cells)]
 		ep := c.epoll
-		if thorough && ep != "lt" && g.Chance(1, 3) {
-			ep += "a" // ET / ONESHOT with AsyncReadInPoller
-		}
+		// (AsyncReadInPoller variants "eta"/"osa" are understood by exec but not generated: with the default
+		// IOExecute the read task gets zero-length buffers from taskpool.NewIO(0, 0, 0) and spins on read(fd, "", 0) —
+		// a read-path matter (C02), see docs/e2e.md)
 		conc := 1 + g.Intn(12)
 		if g.Chance(1, 5) {
 			conc = 1 + g.Intn(3)
@@ -658,6 +658,14 @@ func handler(w http.ResponseWriter, r *http.Request) {
 	}
 }
 
+// ioExecute: read-task executor with real buffers for the AsyncReadInPoller variants
+func ioExecute(f func(*[]byte)) {
+	go func() {
+		buf := make([]byte, 65536)
+		f(&buf)
+	}()
+}
+
 var (
 	srvMu   sync.Mutex
 	servers = map[string]*server{}
@@ -673,6 +681,9 @@ func getServer(c cellT) (*server, error) {
 	mod, oneshot, async := epollConf(c.epoll)
 	conf := nbhttp.Config{Network: "tcp", Handler: http.HandlerFunc(handler), NPoller: 2, EpollMod: mod, EPOLLONESHOT: oneshot,
 		AsyncReadInPoller: async, KeepaliveTime: 90 * time.Second, ReadBufferSize: c.rbuf, BlockingReadBufferSize: c.rbuf}
+	if async {
+		conf.IOExecute = ioExecute
+	}
 	switch c.iomod {
 	case "nb":
 		conf.IOMod = nbhttp.IOModNonBlocking
@@ -698,7 +709,11 @@ func getServer(c cellT) (*server, error) {
 	} else {
 		s.addr = eng.Addrs[0]
 	}
-	cli := nbhttp.NewEngine(nbhttp.Config{NPoller: 1, EpollMod: mod, EPOLLONESHOT: oneshot, AsyncReadInPoller: async})
+	cliConf := nbhttp.Config{NPoller: 1, EpollMod: mod, EPOLLONESHOT: oneshot, AsyncReadInPoller: async}
+	if async {
+		cliConf.IOExecute = ioExecute
+	}
+	cli := nbhttp.NewEngine(cliConf)
 	if err := cli.Start(); err != nil {
 		eng.Stop()
 		return nil, err
@@ -1470,7 +1485,11 @@ func (r *failReader) Read(p []byte) (int, error) {
 func (s *server) runNbx(h *hist) {
 	gt := &gate{}
 	mod, oneshot, async := epollConf(s.cell.epoll)
-	eng := nbhttp.NewEngine(nbhttp.Config{NPoller: 1, EpollMod: mod, EPOLLONESHOT: oneshot, AsyncReadInPoller: async, ServerExecutor: gt.exec})
+	nbxConf := nbhttp.Config{NPoller: 1, EpollMod: mod, EPOLLONESHOT: oneshot, AsyncReadInPoller: async, ServerExecutor: gt.exec}
+	if async {
+		nbxConf.IOExecute = ioExecute
+	}
+	eng := nbhttp.NewEngine(nbxConf)
 	if err := eng.Start(); err != nil {
 		h.fail(true, "c10-client-callback", "client engine start: %v", err)
 		return
